@@ -17,7 +17,10 @@ class Runner:
         self.idmap = {}     # node id -> (history, step)
 
     def world(self):
-        return qi.World(self.m, self.classes)
+        w = qi.World(self.m, self.classes)
+        w.log_dir = os.path.join(self.ctx.build, "instr_logs")
+        os.makedirs(w.log_dir, exist_ok=True)
+        return w
 
     def do(self, w, op, contract_ok=True):
         before = w.observe()
@@ -82,7 +85,7 @@ def from_json(x):
 
 
 # ---------------------------------------------------------------------- generation
-def gen_walk(rng, runner, length, stats, interleave=True, stepped_stop=False):
+def gen_walk(rng, runner, length, stats, interleave=True, stepped_stop=False, logged=False):
     """stateful random walk: the next operation is chosen looking at the harness's own
     lifecycle record (registered apps, reserved qubits); returns the op list"""
     w = runner.world()
@@ -100,7 +103,9 @@ def gen_walk(rng, runner, length, stats, interleave=True, stepped_stop=False):
     def pick_v(nd, app):
         n = sizes.get((nd, app), 2)
         r = rng.random()
-        if r < 0.72 and n > 0:
+        if (r < 0.72 or logged) and n > 0:
+            # (with the instruction logger attached only in-range ids: the logger itself raises on
+            # `set Q0 v` with v outside the unit module)
             return rng.randrange(n)
         return rng.choice([n, n + 1, -1, -n, -n - 1, -2, 0, 1])
 
@@ -111,17 +116,23 @@ def gen_walk(rng, runner, length, stats, interleave=True, stepped_stop=False):
         if r < 0.55:
             return ("QFree", nd, a, pick_v(nd, a))
         if r < 0.70:
-            return ("SetReg", nd, a, (rng.randrange(4), rng.choice([0, 1, 2])), rng.randrange(-20, 20))
+            return ("SetReg", nd, a, (rng.choice(banks), rng.choice([0, 1, 2])), rng.randrange(-20, 20))
         if r < 0.80:
             return ("NewArr", nd, a, rng.randrange(4), rng.choice([1, 2, 3]))
         if r < 0.90:
             return ("Store", nd, a, rng.randrange(4), rng.choice([0, 1, 2]), rng.randrange(-9, 9))
         if r < 0.95:
-            return ("RetReg", nd, a, (rng.randrange(4), rng.choice([0, 1, 2])))
+            return ("RetReg", nd, a, (rng.choice(banks), rng.choice([0, 1, 2])))
         return ("RetArr", nd, a, rng.randrange(4))
 
     force = None
     nlabel = 0
+    if logged:
+        for nd in nodes:
+            op = ("LogOn", nd)
+            w.apply(op)
+            ops.append(op)
+    banks = [0, 1, 3] if logged else [0, 1, 2, 3]      # the logger takes every Q register for a qubit address
     while len(ops) < length:
         nd = rng.choice(nodes)
         if force is not None:
@@ -156,7 +167,7 @@ def gen_walk(rng, runner, length, stats, interleave=True, stepped_stop=False):
                     force = ("Init", k[0], k[1], rng.choice([1, 2, 3]))
             elif r < 0.10:
                 a = pick_app(nd, False)
-                n = rng.choice([1, 2, 3, 4, 4, 2, 0])
+                n = rng.choice([1, 2, 3, 4, 4, 2, 0] if not logged else [1, 2, 3, 4])
                 op = ("Init", nd, a, n)
             elif r < 0.16:
                 a = pick_app(nd, True)
@@ -185,8 +196,8 @@ def gen_walk(rng, runner, length, stats, interleave=True, stepped_stop=False):
                     p = low
                 a = pick_app(nd, True)
                 qa, ra = rng.sample(range(6), 2)
-                if rng.random() < 0.04:
-                    ra = qa
+                if rng.random() < 0.04 and not logged:
+                    ra = qa          # (malformed program; the logger itself trips over it)
                 info = (0, rng.randrange(50), p, 1, rng.randrange(10), rng.randrange(4),
                         rng.choice([x for x in range(4) if x != nd]),  # remote node: never ourselves
                         rng.randrange(100), rng.randrange(1000), rng.randrange(4))
@@ -196,7 +207,7 @@ def gen_walk(rng, runner, length, stats, interleave=True, stepped_stop=False):
                     force = ("QAlloc", nd, a2, pick_v(nd, a2))      # an allocation follows the delivery
             elif r < 0.84:
                 a = pick_app(nd, True)
-                op = ("SetReg", nd, a, (rng.randrange(4), rng.choice([0, 0, 1, 2, 15])),
+                op = ("SetReg", nd, a, (rng.choice(banks), rng.choice([0, 0, 1, 2, 15])),
                       rng.choice([0, 1, -1, 5, 2 ** 31 - 1, -2 ** 31, rng.randrange(-100, 100)]))
             elif r < 0.89:
                 a = pick_app(nd, True)
@@ -206,12 +217,15 @@ def gen_walk(rng, runner, length, stats, interleave=True, stepped_stop=False):
                 op = ("Store", nd, a, rng.randrange(6), rng.choice([0, 0, 1, 2, 4, 9, 10]), rng.randrange(-50, 50))
             elif r < 0.97:
                 a = pick_app(nd, True)
-                op = ("RetReg", nd, a, (rng.randrange(4), rng.choice([0, 0, 1, 2, 15])))
+                op = ("RetReg", nd, a, (rng.choice(banks), rng.choice([0, 0, 1, 2, 15])))
             else:
                 a = pick_app(nd, True)
                 op = ("RetArr", nd, a, rng.randrange(6))
         if op[0] != "Step" and qi.op_pid(op) in w.stopping:
             continue        # messages of one application are handled in order: nothing for it while its stop runs
+        if logged and op[0] in ("Stop", "StopStart") and any(
+                x["nd"] == op[1] and x["app"] == op[2] and not x.get("stop") for x in w.live.values()):
+            continue        # (a subroutine resumed after its application was stopped trips the logger itself)
         out = w.apply(op)
         if op[0] == "Init" and out == 0:
             sizes[(op[1], op[2])] = op[3]
@@ -428,6 +442,9 @@ def run(ctx):
                       "id while its stop is suspended) -- with the unchanged code such an Init is refused but QNodeController._add_app "
                       "has already marked the id active; subroutine generators (Start/Step) and stepped stops are separate layers "
                       "over the same atomic operations")
+    ctx.assume.append("instruction logging (Executor's optional collaborator, a real InstrLogger attached by set_instr_logger) is on "
+                      "in every fifth random walk (virtual addresses in range and no Q registers there: the logger itself raises "
+                      "otherwise); it is not part of the model -- state and outcomes must be the same with and without it")
     ctx.assume.append("Stop is modelled exactly only when set.remove cannot miss (proved under the invariant: C13_no_internal_fault)")
 
     violations = []
@@ -463,7 +480,7 @@ def run(ctx):
     walk_ops = []
     for hno in range(n_walks):
         length = ctx.rng.choice([8, 15, 25, 40, 60] if quick else [8, 15, 25, 40, 60, 120])
-        ops = gen_walk(ctx.rng, runner, length, stats, stepped_stop=(hno % 4 == 3))
+        ops = gen_walk(ctx.rng, runner, length, stats, stepped_stop=(hno % 4 == 3), logged=(hno % 5 == 2))
         walk_ops.append(ops)
         root, fl, outs, _ = runner.run_history(ops, want_tree=not oracle_only(ops))
         if root is not None:
@@ -478,6 +495,7 @@ def run(ctx):
         for step, b in fl:
             report(ops[:step + 1], step, b)
     ctx.coverage["walk_lengths"] = lens
+    ctx.coverage["walks_with_instruction_logger"] = sum(1 for t in walk_ops if t and t[0][0] == "LogOn")
     ctx.coverage["walks_with_stepped_stop"] = sum(1 for t in walk_ops if any(o[0] == "StopStart" for o in t))
     ctx.coverage["op_and_outcome_distribution"] = stats
 
